@@ -127,9 +127,27 @@ class FreshnessDateDataParser:
             or re.search(r"\bfuture\b", prefer_dates_from)
             and not re.search(r"\bago\b", date_string)
         ):
-            date = now + td
+            sign = 1
         else:
-            date = now - td
+            sign = -1
+        date = now + td if sign > 0 else now - td
+
+        tz = now.tzinfo
+        if hasattr(tz, "localize") and hasattr(tz, "normalize"):
+            # pytz zone: the arithmetic above keeps the reference's UTC offset. Move
+            # the wall clock by the calendar part and look the offset up again, then
+            # move the instant by the clock part.
+            calendar_part = relativedelta(years=td.years, months=td.months, days=td.days)
+            clock_part = relativedelta(
+                hours=td.hours,
+                minutes=td.minutes,
+                seconds=td.seconds,
+                microseconds=td.microseconds,
+            )
+            wall = now.replace(tzinfo=None)
+            wall = wall + calendar_part if sign > 0 else wall - calendar_part
+            date = tz.localize(wall)
+            date = tz.normalize(date + clock_part if sign > 0 else date - clock_part)
         return date, period
 
     def get_kwargs(self, date_string):
